@@ -130,6 +130,11 @@ where
                                         panic!("sink must not send data");
                                     },
                                     Message::Pull => {
+                                        // the output may have ended while an earlier source was
+                                        // being pulled
+                                        if ended.load(AtomicOrdering::Acquire) {
+                                            return;
+                                        }
                                         call!(
                                             source_talkback,
                                             Message::Pull,
